@@ -3,7 +3,9 @@ package main
 // Go maps: a reference into two heaps, values (Array K V) and presence (Array K Bool).
 
 import (
+	"fmt"
 	"go/types"
+	"sort"
 
 	"golang.org/x/tools/go/ssa"
 )
@@ -11,7 +13,7 @@ import (
 func (vc *VC) mapHeaps(mt *types.Map) (string, string, string, string) {
 	ks, vs := vc.sortOf(mt.Key()), vc.sortOf(mt.Elem())
 	hv := "Hm_" + sanitize(ks) + "_" + sanitize(vs)
-	hp := "Hmp_" + sanitize(ks)
+	hp := "Hmp_" + sanitize(ks) + "_" + sanitize(vs) // per map type: maps of different Go types never alias
 	if vc.heapMapKey == nil {
 		vc.heapMapKey = map[string]string{}
 	}
@@ -88,4 +90,114 @@ func (fr *frame) mapLen(m SV, cur *State, rtyp types.Type) SV {
 	vc.assume(le("0", r))
 	vc.assumes["len(map) is an unconstrained non-negative integer"] = true
 	return SV{t: r, typ: rtyp}
+}
+
+// ---------------------------------------------------------------- range over a map
+//
+// `for k, v := range m`: the iteration visits the keys present when the loop starts, each exactly once, in an
+// order the program cannot rely on. Per range instruction N (ordinal in source order) three fresh symbols are
+// declared: rngN_len, rngN_key : Int -> K (the visiting order) and rngN_idx : K -> Int (its inverse), with
+//   0 <= i < len  ==>  present0[key(i)] && idx(key(i)) == i
+//   present0[k]   ==>  0 <= idx(k) < len && key(idx(k)) == k
+// The position lives in the ghost heap Hrng[N] so that loop invariants can mention it (iterpos(N)).
+// ASSUMED (Go spec): the loop body inserts no key into the ranged map; it may delete keys already visited.
+
+func (fr *frame) rangeOrdinal(x *ssa.Range) int {
+	var all []*ssa.Range
+	for _, b := range fr.fn.Blocks {
+		for _, ins := range b.Instrs {
+			if r, ok := ins.(*ssa.Range); ok {
+				all = append(all, r)
+			}
+		}
+	}
+	sort.SliceStable(all, func(i, j int) bool { return all[i].Pos() < all[j].Pos() })
+	for i, r := range all {
+		if r == x {
+			return i + 1
+		}
+	}
+	return 0
+}
+
+func (vc *VC) rangeSyms(n int, ks string) (string, string, string) {
+	pfx := fmt.Sprintf("rng%d", n)
+	if vc.name != "" || vc.fn == nil {
+		pfx = "rng" + fmt.Sprint(n)
+	}
+	if ks != "" {
+		vc.declRaw("fn:"+pfx, fmt.Sprintf("(declare-const %s_len Int)\n(declare-fun %s_key (Int) %s)\n(declare-fun %s_idx (%s) Int)", pfx, pfx, ks, pfx, ks))
+	}
+	return pfx + "_len", pfx + "_key", pfx + "_idx"
+}
+
+func (fr *frame) rangeOp(x *ssa.Range, cur *State) SV {
+	vc := fr.vc
+	mt, ok := x.X.Type().Underlying().(*types.Map)
+	if !ok {
+		vc.errorf("range over a string is not supported in %s", funcKey(fr.fn))
+		return SV{t: "0", typ: x.Type()}
+	}
+	if fr.depth > 0 {
+		vc.errorf("range over a map inside an inlined callee (%s)", funcKey(fr.fn))
+	}
+	m := fr.val(x.X)
+	_, hp, ks, _ := vc.mapHeaps(mt)
+	n := fr.rangeOrdinal(x)
+	ln, key, idx := vc.rangeSyms(n, ks)
+	p0 := vc.nameTerm2("present0", ite(eq(m.t, "0"), "((as const (Array "+ks+" Bool)) false)", sel(vc.heapGet(cur, hp), m.t)), "(Array "+ks+" Bool)")
+	vc.assume(le("0", ln))
+	vc.assume(fmt.Sprintf("(forall ((rg_i Int)) (! (=> (and (<= 0 rg_i) (< rg_i %s)) (and (select %s (%s rg_i)) (= (%s (%s rg_i)) rg_i))) :pattern ((%s rg_i))))", ln, p0, key, idx, key, key))
+	vc.assume(fmt.Sprintf("(forall ((rg_k %s)) (! (=> (select %s rg_k) (and (<= 0 (%s rg_k)) (< (%s rg_k) %s) (= (%s (%s rg_k)) rg_k))) :pattern ((%s rg_k)) :pattern ((select %s rg_k))))", ks, p0, idx, idx, ln, key, idx, idx, p0))
+	vc.ensureHeap("Hrng", "Int", nil, false)
+	vc.heapSet(cur, "Hrng", sto(vc.heapGet(cur, "Hrng"), num(int64(n)), "0"))
+	vc.assumes["range over a map: the keys present at loop entry are visited once each in an arbitrary order; the body inserts no key into the ranged map"] = true
+	return SV{t: num(int64(n)), typ: x.Type(), rngMap: &m, rngType: mt}
+}
+
+func (fr *frame) nextOp(x *ssa.Next, cur *State) SV {
+	vc := fr.vc
+	it := fr.val(x.Iter)
+	if x.IsString || it.rngMap == nil {
+		vc.errorf("range over a string is not supported in %s", funcKey(fr.fn))
+		return SV{t: "0", typ: x.Type()}
+	}
+	mt := it.rngType
+	hv, hp, ks, _ := vc.mapHeaps(mt)
+	var n int
+	fmt.Sscan(it.t, &n)
+	ln, key, _ := vc.rangeSyms(n, ks)
+	vc.ensureHeap("Hrng", "Int", nil, false)
+	pos := sel(vc.heapGet(cur, "Hrng"), it.t)
+	ok := and(le("0", pos), lt(pos, ln))
+	k := app(key, pos)
+	m := it.rngMap
+	present := and(not(eq(m.t, "0")), sel(sel(vc.heapGet(cur, hp), m.t), k))
+	v := ite(present, sel(sel(vc.heapGet(cur, hv), m.t), k), vc.zero(mt.Elem()))
+	vc.heapSet(cur, "Hrng", sto(vc.heapGet(cur, "Hrng"), it.t, ite(ok, add(pos, "1"), pos)))
+	return SV{typ: x.Type(), tup: []SV{{t: ok, typ: types.Typ[types.Bool]}, {t: k, typ: mt.Key()}, {t: v, typ: mt.Elem()}}}
+}
+
+// rangeKeySort: SMT sort of the keys of the n-th map range of the function under verification.
+func (vc *VC) rangeKeySort(n int) string {
+	if vc.fn == nil {
+		return ""
+	}
+	var all []*ssa.Range
+	for _, b := range vc.fn.Blocks {
+		for _, ins := range b.Instrs {
+			if r, ok := ins.(*ssa.Range); ok {
+				all = append(all, r)
+			}
+		}
+	}
+	sort.SliceStable(all, func(i, j int) bool { return all[i].Pos() < all[j].Pos() })
+	if n < 1 || n > len(all) {
+		return ""
+	}
+	mt, ok := all[n-1].X.Type().Underlying().(*types.Map)
+	if !ok {
+		return ""
+	}
+	return vc.sortOf(mt.Key())
 }
